@@ -44,25 +44,34 @@ def nontrivial(A):
     return 1 < hi < len(A.Q)
 
 
-def check_plain(acc, spec, routines=ROUTINES, scheme='s'):
-    rp = {'fn': 'mc.props.c04:one_plain', 'mode': 'plain', 'params': {'spec': spec, 'scheme': scheme}}
+def check_plain(acc, spec, routines=ROUTINES, scheme='s', logging=False, morph=False):
+    from gambatools.global_settings import GambaTools
+    rp = {'fn': 'mc.props.c04:one_plain', 'mode': 'plain', 'params': {'spec': spec, 'scheme': scheme, 'logging': logging}}
+    if morph:
+        rp = {'fn': 'mc.props.c04:t_plain', 'mode': 'plain', 'params': dict(acc.data.get('ctx', {}), upto=spec)}
     A = common.ref_of_dfa_spec(spec, scheme)
     acc.states += 1
     if nontrivial(A):
         acc.nontrivial += 1
         acc.sample({'dfa': spaces.dfa_parts(spec, scheme)[2] and {'Q': A.Q, 'delta': {'{},{}'.format(q, a): sorted(r)[0] for (q, a), r in A.delta.items()}, 'q0': A.q0, 'F': sorted(A.F)}, 'nerode_classes_all_states': fa.n_classes(A, A.Q)})
     for name in routines:
-        inst = {'dfa': spec, 'scheme': scheme, 'routine': name, 'schedule': 'CPython order, seed 0'}
-        D = spaces.build_dfa(spec, scheme)
+        inst = {'dfa': spec, 'scheme': scheme, 'routine': name, 'schedule': 'CPython order, seed 0', 'logging': logging}
+        if morph:
+            inst['presented_as'] = 'one live DFA rewritten in place after earlier minimisations'
+        D = spaces.morph_dfa(spec, scheme) if morph else spaces.build_dfa(spec, scheme)
         before = common.snap_dfa(D)
-        ok, M = core.lib_call(acc, name, inst, routine(name), D, repro=rp)
+        GambaTools.enable_logging = logging
+        try:
+            ok, M = core.lib_call(acc, name, inst, routine(name), D, repro=rp)
+        finally:
+            GambaTools.enable_logging = False
         acc.transitions += 1
         if ok:
             judge(acc, name, inst, rp, D, before, M, A)
 
 
-def one_plain(acc, spec, scheme='s'):
-    check_plain(acc, spec, ROUTINES, scheme)
+def one_plain(acc, spec, scheme='s', logging=False):
+    check_plain(acc, spec, ROUTINES, scheme, logging)
 
 
 def check_sched(acc, spec, depth, routines=ROUTINES, scheme='s', only_boost=None):
@@ -99,10 +108,20 @@ def one_sched(acc, spec, scheme, routine, boost=(), native=False):
     check_sched(acc, spec, 0, (routine,), scheme, only_boost=(tup(boost), native))
 
 
-def t_plain(acc, n, k, shard, nshard, stride=1, offset=0):
+def t_plain(acc, n, k, shard, nshard, stride=1, offset=0, logging=False, morph=False, upto=None, scheme='s'):
+    def tl(x):
+        return tuple(tl(y) for y in x) if isinstance(x, list) else x
+    upto = tl(upto) if upto is not None else None
     size = spaces.dfa_size(n, k)
+    if morph:
+        spaces._LIVE.clear()
+        acc.data['ctx'] = {'n': n, 'k': k, 'shard': shard, 'nshard': nshard, 'stride': stride, 'offset': offset, 'morph': True}
     for idx in range(offset + shard * stride, size, nshard * stride):
-        check_plain(acc, spaces.dfa_spec(n, k, idx))
+        spec = spaces.dfa_spec(n, k, idx)
+        check_plain(acc, spec, scheme=scheme, logging=logging, morph=morph)
+        if upto is not None and spec == upto:
+            break
+    acc.data.clear()
 
 
 def t_sched(acc, n, k, depth, shard, nshard, stride=1, offset=0):
@@ -115,9 +134,9 @@ def t_sched(acc, n, k, depth, shard, nshard, stride=1, offset=0):
 def plan(tier, seed):
     tasks = []
 
-    def plain(n, k, nshard, stride=1, offset=0):
+    def plain(n, k, nshard, stride=1, offset=0, **kw):
         for s in range(nshard):
-            tasks.append(('plain', 'mc.props.c04:t_plain', {'n': n, 'k': k, 'shard': s, 'nshard': nshard, 'stride': stride, 'offset': offset}))
+            tasks.append(('plain', 'mc.props.c04:t_plain', dict({'n': n, 'k': k, 'shard': s, 'nshard': nshard, 'stride': stride, 'offset': offset}, **kw)))
 
     def sched(n, k, depth, nshard, stride=1, offset=0):
         for s in range(nshard):
@@ -127,6 +146,17 @@ def plan(tier, seed):
         plain(n, k, 1)
     plain(3, 2, 16)
     plain(4, 1, 16)
+    plain(2, 2, 1, logging=True)
+    plain(3, 1, 1, logging=True)
+    plain(3, 2, 8, stride=7, offset=3, logging=True)
+    for sch in ('t', 'd', 'f', 'q', 'x'):
+        plain(2, 2, 1, scheme=sch)
+        plain(3, 1, 1, scheme=sch)
+    plain(3, 2, 8, stride=3, offset=1, scheme='t')
+    plain(4, 1, 4, stride=2, scheme='t')
+    plain(2, 2, 1, morph=True)
+    plain(3, 1, 1, morph=True)
+    plain(3, 2, 8, stride=5, offset=2, morph=True)
     if tier == 'quick':
         plain(4, 2, 32, stride=64, offset=seed % 64)
         plain(5, 1, 16, stride=16, offset=seed % 16)
@@ -134,7 +164,8 @@ def plan(tier, seed):
             sched(n, k, 2, 1)
         sched(3, 2, 1, 32)
         sched(4, 1, 1, 16, stride=8, offset=seed % 8)
-        bounds = {'plain': 'DFA(n<=3,k<=2), DFA(4,1) all; DFA(4,2) stride 1/64; DFA(5,1) stride 1/16', 'scheduled': 'd<=2 on DFA(n<=2,k<=2), DFA(3,1); d<=1 on DFA(3,2); d<=1 on DFA(4,1) stride 1/8'}
+        sched(5, 1, 1, 32, stride=32, offset=seed % 32)
+        bounds = {'plain': 'DFA(n<=3,k<=2), DFA(4,1) all; DFA(4,2) stride 1/64; DFA(5,1) stride 1/16', 'scheduled': 'd<=2 on DFA(n<=2,k<=2), DFA(3,1); d<=1 on DFA(3,2); d<=1 on DFA(4,1) stride 1/8 and DFA(5,1) stride 1/32'}
     else:
         plain(4, 2, 64)
         plain(5, 1, 32)
@@ -143,10 +174,11 @@ def plan(tier, seed):
         sched(3, 1, 3, 4)
         sched(3, 2, 2, 64)
         sched(4, 1, 2, 32)
-        bounds = {'plain': 'DFA(n<=3,k<=2), DFA(4,1), DFA(4,2) (4 194 304), DFA(5,1) (500 000) all', 'scheduled': 'd<=3 on DFA(n<=2,k<=2), DFA(3,1); d<=2 on DFA(3,2), DFA(4,1)'}
+        sched(5, 1, 1, 64, stride=2)
+        bounds = {'plain': 'DFA(n<=3,k<=2), DFA(4,1), DFA(4,2) (4 194 304), DFA(5,1) (500 000) all', 'scheduled': 'd<=3 on DFA(n<=2,k<=2), DFA(3,1); d<=2 on DFA(3,2), DFA(4,1); d<=1 on DFA(5,1) stride 1/2'}
     return {'tasks': tasks, 'bounds': bounds, 'exhaustive': True,
             'rule': 'every labelled DFA in the bounds x 3 minimisers; scheduled layer: every execution with <= d set-order deviations (boost lists) from the canonical global order, plus one execution under CPython order; states = distinct trace digests (+ instances in the plain layer); non-trivial = at least one merge and one split (1 < #classes < |Q|)',
-            'assumptions': ['set iteration order is a global total order on elements within one execution (DESIGN 3.4)', 'strided layers select index % K == VERIF_SEED % K']}
+            'assumptions': ['set iteration order is a global total order on elements within one execution (DESIGN 3.4)', 'strided layers select index % K == VERIF_SEED % K', 'small spaces also with GambaTools.enable_logging = True and through one live DFA rewritten in place']}
 
 
 def finish(acc, spec):
